@@ -1,3 +1,2 @@
-import Driver.Loop
-/-! Driver for group `decode`: replace `[]` by this group's handlers. -/
-def main : IO Unit := TF.Driver.run []
+import Driver.Decode
+def main : IO Unit := TF.Driver.run [TF.Driver.handleDecode]
